@@ -11,6 +11,8 @@ import sys
 import threading
 import time
 
+REAL_PID = os.getpid()          # os.getpid may be pinned for the code under test (see pin_ids)
+
 
 def data_desc(d):
     import numpy as np
@@ -85,7 +87,7 @@ class KillPoints:
                     self.real_sleep(0.001)
                 return
             sys.stdout.flush()
-            os.kill(os.getpid(), signal.SIGKILL)
+            os.kill(REAL_PID, signal.SIGKILL)
             time.sleep(10)
 
     def on_line(self, code, line):
@@ -148,6 +150,12 @@ def main(argv):
         stray = os.path.join(os.path.dirname(os.path.abspath(home)), "strayhome-%d" % os.getpid())
         os.makedirs(stray, exist_ok=True)
         os.environ["HOME"] = stray
+    if spec.get("pin_ids"):
+        # every run is process 1 of its own container (python experiment.py as the entry point, the data home on a
+        # mounted volume): the killed run, the later run and every run after it have the SAME process id and main-thread id
+        _real_tid = threading.get_native_id
+        os.getpid = lambda: 1
+        threading.get_native_id = lambda: 1 if threading.current_thread() is threading.main_thread() else _real_tid()
     from twverif import import_target
     from twverif.monitors import audit, fakenet
     if spec.get("logging"):
